@@ -137,15 +137,21 @@ class ATask(AFuture):
                 ev.waiters.remove(fut)
             if tok[0] == "send":
                 tok = ("send", True)
+        self.woken_by = fut
         self.step(tok)
 
     def step(self, tok=None):
         I = self.loop.I
         if self.done():
             raise EngineError(f"step of finished task {self.label}")
+        from_future = tok is not None
         tok = tok or ("send", None)
         if self.must_cancel:
             if not (tok[0] == "throw" and I.exc_isinstance(tok[1], "CancelledError")):
+                if from_future and self.loop.on_outcome_lost is not None:
+                    # CPython: a cancel() that arrives after the awaited future completed but before the task is woken up
+                    # replaces the future's result / exception by CancelledError
+                    self.loop.on_outcome_lost(self, tok)
                 tok = ("throw", I.mkexc("CancelledError"))
             self.must_cancel = False
         self.fut_waiter = None
@@ -411,6 +417,7 @@ class Loop:
                     break
 
     on_deadlock = None
+    on_outcome_lost = None
 
     def step_one(self):
         cb, args, label = self.ready.popleft()
